@@ -111,6 +111,12 @@ func PatchesFromDocument(doc string) ([]Patch, error) {
 	var jsonPatches []string
 
 	for _, key := range sortedKeys(parsed) {
+		// an empty list of keys or services asks for nothing, and as a patch it would be refused by the validator
+		if list, ok := parsed[key].([]interface{}); ok && len(list) == 0 &&
+			(key == document.PublicKeyProperty || key == document.ServiceProperty) {
+			continue
+		}
+
 		jsonBytes, err := json.Marshal(parsed[key])
 		if err != nil {
 			return nil, err
